@@ -134,16 +134,21 @@ structure MSt where
 def damageDir (d : Dir) (seg off : Nat) (mu : String) : Dir :=
   d.map fun (k, b) => if k = seg then (k, (mutate b off mu).getD b) else (k, b)
 
+def summaryDir (d : Dir) : String :=
+  if d.isEmpty then "-" else ",".intercalate (d.map fun (k, b) => s!"{k}:{fileId b}")
+
 def predictRepair (st : MSt) (cls : String) (seg off : Nat) (mu : String) : String :=
   let wal := if cls = "wal" then damageDir st.wal seg off mu else st.wal
   let wbl := if cls = "wbl" then damageDir st.wbl seg off mu else st.wbl
   let ckpt := if cls = "ckpt" then damageDir st.ckpt seg off mu else st.ckpt
   let logs : Logs := { ckpt := st.ckptIdx.map fun i => (i, ckpt), wal := wal, wbl := wbl }
-  match (openLogs pageSize 1 crc32c walDec wblDec logs).1 with
-  | .clean _ _ => "repair=none"
-  | .walRepaired c _ => s!"repair=wal:{c.seg}:{c.off}"
-  | .wblRepaired c _ _ => s!"repair=wbl:{c.seg}:{c.off}"
-  | .failed c => s!"repair={if cls = "wbl" then "wbl" else "wal"}:{c.seg}:{c.off}"
+  let (res, after) := openLogs pageSize 1 crc32c walDec wblDec logs
+  let dirs := s!" wal={summaryDir after.wal} wbl={summaryDir after.wbl}"
+  match res with
+  | .clean _ _ => "repair=none" ++ dirs
+  | .walRepaired c _ => s!"repair=wal:{c.seg}:{c.off}" ++ dirs
+  | .wblRepaired c _ _ => s!"repair=wbl:{c.seg}:{c.off}" ++ dirs
+  | .failed c => s!"repair={if cls = "wbl" then "wbl" else "wal"}:{c.seg}:{c.off}" ++ dirs
 
 def stepModel (st : MSt) (line : String) : MSt × String :=
   match toks line with
@@ -324,7 +329,10 @@ def judgeSite (d : Db) (site : Site) : Option (Bool × String) :=
   let ino1 := site.present1.filter fun x => !has ooo x
   let ooo1 := site.present1.filter fun x => has ooo x
   match checkIno d site 1 ino1 with
-  | some m => some (site.cls = "chunks" ∧ site.cb ∧ site.mu = "trunc", m)
+  | some m =>
+    -- documented patterns: a clean truncation that leaves a well-formed but shorter file is not detected
+    some ((site.cls = "chunks" ∧ site.cb ∧ site.mu = "trunc") ∨
+          (site.cls = "ckpt" ∧ site.mu = "trunc" ∧ site.repair = "repair=none"), m ++ " " ++ site.repair)
   | none =>
   -- out-of-order samples: the undamaged part of the WBL, for the series that exist
   let known := d.knownSeries site.j
@@ -370,7 +378,7 @@ def parseSite (fs : List String) (implOut : String) : Option Site :=
            open1 := (g "open1").getD "?", tree1 := (g "tree1").getD "?",
            present1 := parseSet ((g "present1").getD "-"), news := parseSet ((g "new").getD "-"),
            app := (g "app").getD "?", open2 := (g "open2").getD "?",
-           present2 := parseSet ((g "present2").getD "-"), repair := implOut }
+           present2 := parseSet ((g "present2").getD "-"), repair := (toks implOut).headD "" }
   | _ => none
 
 def parseDb (fs : List String) : Db :=
@@ -439,7 +447,11 @@ def judgeW (js : JW) (op out : String) : JW × Option String :=
           else ({ js with afterDamage := some ids }, none)
       | some kept =>
         -- after repair / reopen, further writes and close
-        if status ≠ "eof" then (js, some s!"repaired-log-unreadable {rd} status={status}")
+        if status ≠ "eof" ∧ !js.repaired ∧ rd = "wreadall" ∧ status.startsWith "err:seq-" ∧ js.dmgMu ≠ "trunc" then
+          -- no corruption was found segment by segment, yet a reader spanning the segments trips over a
+          -- fragment left open by the damaged byte
+          (js, some s!"undetected-open-fragment {rd} status={status} seg={js.dmgSeg} off={js.dmgOff} mu={js.dmgMu}")
+        else if status ≠ "eof" then (js, some s!"repaired-log-unreadable {rd} status={status}")
         else if js.repaired ∧ ids ≠ kept.take (ids.length - js.more.length) ++ js.more then
           (js, some s!"repaired-log-mismatch {rd} got={ids.length} kept={kept.length} more={js.more.length}")
         else if js.repaired ∧ ids.length < js.more.length then (js, some s!"repaired-log-short {rd}")
